@@ -501,7 +501,14 @@ def check_mirror(ctx):
         lst = first_index(nodes, lambda n: n.get("k") == "call" and any(a.get("k") == "lit" and a.get("v") == "wx:for" for a in n["args"]))
         item = [i for i in adds if mentions(nodes[i], "item_name")]
         index = [i for i in adds if mentions(nodes[i], "index_name")]
-        kids = first_index(nodes, lambda n: n.get("k") == "for" and sir.expr_str(n["e"]) == "children", start=(index[0] if index else 0))
+        helper_names = set(g.name for g in sir.reach(tc, f) if g is not f)
+
+        def prints_children(n):
+            if n.get("k") == "for" and mentions(n["e"], "children"):
+                return True
+            # the child loop may live in a private helper that is handed the children
+            return n.get("k") in ("call", "mcall") and (sir.call_name(n) or "").split("::")[-1] in helper_names and any(mentions(a, "children") for a in n["args"])
+        kids = first_index(nodes, prints_children, start=(index[0] if index else 0))
         ok = None not in (save, trunc, lst, kids) and item and index and save < lst < item[0] < index[0] < kids < trunc
         obs.append(ob("C05.mirror/print/for-order", bool(ok), where, "save@%s < wx:for attr@%s < add_scope(item)@%s < add_scope(index)@%s < children@%s < truncate@%s" % (save, lst, item, index, kids, trunc)))
     sl = [f for f in tc.fns if f.name == "write_slot_and_slot_values" and f.body]
